@@ -664,7 +664,13 @@ def argsRow (c : Content) (cache : Cache) (vars : List (Name × Rat)) (t : Rat) 
   let raw ← rawArgs c cache vars t
   -- `scope = self._data | raw; ro.calculate_inpl(name, scope); raw[name] = scope[name]` (readouts may name data sets
   -- since the repair `fix: readouts can name data sets`): the shared `Mxl.evalReadouts`
-  let raw ← if fl.readouts then Mxl.evalReadouts c.readouts (raw ++ c.data) raw else pure raw
+  -- … `for name in self._sorted_readouts(set(scope))` (since `fix: readouts are evaluated in dependency order`): the
+  -- shared `Mxl.sortedReadouts` — a readout naming an unknown name is a MissingDependenciesError, a cycle a
+  -- CircularDependencyError
+  let raw ← if fl.readouts then do
+      let ros ← Mxl.sortedReadouts c (raw ++ c.data)
+      Mxl.evalReadouts ros (raw ++ c.data) raw
+    else pure raw
   (argNames c cache fl).mapM fun k => do pure (k, ← Env.get raw k)
 
 /-- the public `get_args(variables, time)` table, then `self._data | args` as lookup environment for
